@@ -481,6 +481,10 @@ type AOpts struct {
 	Host     *Host
 	Transfer avm.TransferFunc // optional wrapper
 	WrapDB   func(avm.StateDB) avm.StateDB
+	// ChainConfig / BlockNumber override the case's fork configuration and the block the EVM is built in (used for
+	// EVMs that are moved across a fork boundary with SetBlockContext)
+	ChainConfig *params.ChainConfig
+	BlockNumber uint64
 }
 
 func ABlockCtx(f Fork) avm.BlockContext {
@@ -539,7 +543,14 @@ func newA(c *Case, opts AOpts, db *TDB, done func()) *AEnv {
 	if opts.WrapDB != nil {
 		sdb = opts.WrapDB(db)
 	}
-	evm := avm.NewEVM(bc, avm.TxContext{Origin: Origin, GasPrice: big.NewInt(11)}, sdb, Config(c.Fork), cfg)
+	cc := Config(c.Fork)
+	if opts.ChainConfig != nil {
+		cc = opts.ChainConfig
+	}
+	if opts.BlockNumber != 0 {
+		bc.BlockNumber = new(big.Int).SetUint64(opts.BlockNumber)
+	}
+	evm := avm.NewEVM(bc, avm.TxContext{Origin: Origin, GasPrice: big.NewInt(11)}, sdb, cc, cfg)
 	if opts.JPOff {
 		evm.CloseAspectCall()
 	}
